@@ -1,6 +1,7 @@
 import SLE.Lemmas.Layout
 import SLE.Lemmas.Unify
 import SLE.Lemmas.MergePacked
+import SLE.Lemmas.OrderFacts
 /-!
 # C02 — determinism under hash-iteration order
 
@@ -74,5 +75,22 @@ theorem C02_fold_order_dependent_with_packed_on_pinned :
            [(1, .word (some 8) .bool), (1, .word (some 8) .address)], []) ∧
     Unify.foldClass 0 [.word (some 8) .bool, .word (some 8) .address, .packed [⟨1, 0, 8⟩] false] 5 =
       .ok (.conflict, 5, [], [], []) := MergePacked.d18_fold_order_witness
+
+
+/-- The inference sets do not depend on the order in which judgements were added (the sixteen
+rules sit in a hash set; each only adds judgements) … -/
+theorem C02_inference_sets_order_free {js js' : List (Nat × TE)} (h : js.Perm js') (v : Nat) :
+    ∀ e, e ∈ ((TC.infSets js).lookup v).getD [] ↔ e ∈ ((TC.infSets js').lookup v).getD [] :=
+  OrderFacts.infSets_perm_mem h v
+
+/-- … and unification starts from the same partition with the same evidence per class, whatever
+the order of the judgements and whatever the iteration orders of the two runs. -/
+theorem C02_initial_forest_order_free {o o' : Unify.Orders} (ho : Unify.OrdersOk o) (ho' : Unify.OrdersOk o')
+    (vars : List Nat) {js js' : List (Nat × TE)} (hp : js.Perm js') :
+    ∃ f f', Unify.initForest o vars (fun v => ((TC.infSets js).lookup v).getD []) = .ok f ∧
+      Unify.initForest o' vars (fun v => ((TC.infSets js').lookup v).getD []) = .ok f' ∧
+      (∀ a b, OrderFacts.sameClass f a b ↔ OrderFacts.sameClass f' a b) ∧
+      (∀ a e, e ∈ OrderFacts.evidence f a ↔ e ∈ OrderFacts.evidence f' a) :=
+  OrderFacts.initForest_judgement_order ho ho' vars hp
 
 end SLE.C02
